@@ -42,6 +42,9 @@ def _alarm(signum, frame):
 def execute_run(mod, pid, seed, run_index, tier, replay=None, params=None, timeout=60.0):
     """Execute one simulated run; returns the Ctx.  Harness exceptions propagate."""
     ctx = Ctx(pid, seed, run_index, tier, replay=replay, params=params)
+    from . import spec as _spec
+
+    _spec.reset_names()
     old = signal.signal(signal.SIGALRM, _alarm)
     signal.setitimer(signal.ITIMER_REAL, timeout)
     try:
